@@ -36,7 +36,7 @@ func checkThreshold(total, free uint64, minSpaceRequired float64) error {
 	}
 
 	// Compare free space with threshold
-	if free < uint64(threshold) {
+	if float64(free) < threshold {
 		return fmt.Errorf("low disk space: free=%.2f GB, threshold=%.2f GB", float64(free)/1e9, float64(threshold)/1e9)
 	}
 
